@@ -329,7 +329,7 @@ fn untouched_pages_ok() {
 }
 
 // ---- C02-Ob1 / C05 / C10-Ob4: the write plan of a commit
-// @ob props=C02,C10 tier=quick cap=900 mem=16 fns=Tx::commit,TxInner::write_data,TxFreelist::free,TxFreelist::allocate,Freelist::pages,Freelist::size,Page::freelist_mut,Page::meta_mut,Meta::hash_self,DBInner::meta bound="12-page file, one dirty 40-byte page, free set {4,5}, no reader, no growth, strict mode off" unwind=260
+// @ob props=C02,C10 tier=quick cap=900 mem=12 fns=Tx::commit,TxInner::write_data,TxFreelist::free,TxFreelist::allocate,Freelist::pages,Freelist::size,Page::freelist_mut,Page::meta_mut,Meta::hash_self,DBInner::meta bound="12-page file, one dirty 40-byte page, free set {4,5}, no reader, no growth, strict mode off" unwind=260
 #[kani::proof]
 #[kani::unwind(260)]
 fn tx_commit_write_plan() {
@@ -491,7 +491,7 @@ fn image_is_old_or_new() -> bool {
 }
 
 // ---- C02-Ob2: process kill = any prefix of the file operations of a commit
-// @ob props=C02 tier=quick cap=1200 mem=16 fns=Tx::commit,TxInner::write_data,DBInner::meta,Page::meta,Meta::valid bound="the commit of tx_commit_write_plan; crash after any prefix k of its logged file operations (k symbolic)" unwind=520
+// @ob props=C02 tier=quick cap=1200 mem=12 fns=Tx::commit,TxInner::write_data,DBInner::meta,Page::meta,Meta::valid bound="the commit of tx_commit_write_plan; crash after any prefix k of its logged file operations (k symbolic)" unwind=520
 #[kani::proof]
 #[kani::unwind(520)]
 fn tx_commit_crash_prefix() {
@@ -526,7 +526,7 @@ fn tx_commit_crash_prefix() {
 
 // ---- C02-Ob3: power loss = operations issued after the last completed sync persist in any subset; data
 //      writes atomically (each lies inside one 512-byte sector), the header write torn at 8-byte words
-// @ob props=C02 tier=quick cap=1800 mem=24 fns=Tx::commit,TxInner::write_data,DBInner::meta,Page::meta,Meta::valid,Meta::hash_self bound="the commit of tx_commit_write_plan; power loss after any prefix k; every subset of the unsynced writes; header torn at any 8-byte word mask over its 13 record words" unwind=520
+// @ob props=C02 tier=quick cap=1800 mem=14 fns=Tx::commit,TxInner::write_data,DBInner::meta,Page::meta,Meta::valid,Meta::hash_self bound="the commit of tx_commit_write_plan; power loss after any prefix k; every subset of the unsynced writes; header torn at any 8-byte word mask over its 13 record words" unwind=520
 #[kani::proof]
 #[kani::unwind(520)]
 fn tx_commit_power_loss() {
@@ -631,27 +631,221 @@ macro_rules! fault_harness {
     };
 }
 
-// @ob props=C11 tier=thorough cap=1200 mem=16 fns=Tx::commit,TxInner::write_data bound="failing call 0: file.metadata()" unwind=520
+// @ob props=C11 tier=thorough cap=1200 mem=12 fns=Tx::commit,TxInner::write_data bound="failing call 0: file.metadata()" unwind=520
 fault_harness!(tx_commit_fault_00_metadata, 0, 0);
-// @ob props=C11 tier=thorough cap=1200 mem=16 fns=Tx::commit,TxInner::write_data bound="failing call 1: seek to the first dirty page" unwind=520
+// @ob props=C11 tier=thorough cap=1200 mem=12 fns=Tx::commit,TxInner::write_data bound="failing call 1: seek to the first dirty page" unwind=520
 fault_harness!(tx_commit_fault_01_seek, 1, 0);
-// @ob props=C11 tier=quick cap=1200 mem=16 fns=Tx::commit,TxInner::write_data,DBInner::meta bound="failing call 2: write of the first dirty page (error)" unwind=520
+// @ob props=C11 tier=quick cap=1200 mem=12 fns=Tx::commit,TxInner::write_data,DBInner::meta bound="failing call 2: write of the first dirty page (error)" unwind=520
 fault_harness!(tx_commit_fault_02_write, 2, 0);
-// @ob props=C11 tier=thorough cap=1200 mem=16 fns=Tx::commit,TxInner::write_data,DBInner::meta bound="call 2 is a short write of 8 bytes, the next call fails" unwind=520
+// @ob props=C11 tier=thorough cap=1200 mem=12 fns=Tx::commit,TxInner::write_data,DBInner::meta bound="call 2 is a short write of 8 bytes, the next call fails" unwind=520
 fault_harness!(tx_commit_fault_02_short, 2, 8);
-// @ob props=C11 tier=thorough cap=1200 mem=16 fns=Tx::commit,TxInner::write_data bound="failing call 4: write of the free-list page" unwind=520
+// @ob props=C11 tier=thorough cap=1200 mem=12 fns=Tx::commit,TxInner::write_data bound="failing call 4: write of the free-list page" unwind=520
 fault_harness!(tx_commit_fault_04_write, 4, 0);
-// @ob props=C11 tier=thorough cap=1200 mem=16 fns=Tx::commit,TxInner::write_data bound="failing call 5: flush after the data pages" unwind=520
+// @ob props=C11 tier=thorough cap=1200 mem=12 fns=Tx::commit,TxInner::write_data bound="failing call 5: flush after the data pages" unwind=520
 fault_harness!(tx_commit_fault_05_flush, 5, 0);
-// @ob props=C11 tier=quick cap=1200 mem=16 fns=Tx::commit,TxInner::write_data,DBInner::meta bound="failing call 6: sync after the data pages" unwind=520
+// @ob props=C11 tier=quick cap=1200 mem=12 fns=Tx::commit,TxInner::write_data,DBInner::meta bound="failing call 6: sync after the data pages" unwind=520
 fault_harness!(tx_commit_fault_06_sync, 6, 0);
-// @ob props=C11 tier=thorough cap=1200 mem=16 fns=Tx::commit,TxInner::write_data bound="failing call 7: seek to the header slot" unwind=520
+// @ob props=C11 tier=thorough cap=1200 mem=12 fns=Tx::commit,TxInner::write_data bound="failing call 7: seek to the header slot" unwind=520
 fault_harness!(tx_commit_fault_07_seek, 7, 0);
-// @ob props=C11 tier=quick cap=1200 mem=16 fns=Tx::commit,TxInner::write_data,DBInner::meta bound="failing call 8: write of the header page (error, nothing written)" unwind=520
+// @ob props=C11 tier=quick cap=1200 mem=12 fns=Tx::commit,TxInner::write_data,DBInner::meta bound="failing call 8: write of the header page (error, nothing written)" unwind=520
 fault_harness!(tx_commit_fault_08_write, 8, 0);
-// @ob props=C11 tier=quick cap=1200 mem=16 fns=Tx::commit,TxInner::write_data,DBInner::meta,Meta::valid bound="call 8 (header page) is a short write of 8 bytes, the next call fails: torn header" unwind=520
+// @ob props=C11 tier=quick cap=1200 mem=12 fns=Tx::commit,TxInner::write_data,DBInner::meta,Meta::valid bound="call 8 (header page) is a short write of 8 bytes, the next call fails: torn header" unwind=520
 fault_harness!(tx_commit_fault_08_short, 8, 8);
-// @ob props=C11 tier=thorough cap=1200 mem=16 fns=Tx::commit,TxInner::write_data,DBInner::meta bound="failing call 9: flush after the header write" unwind=520
+// @ob props=C11 tier=thorough cap=1200 mem=12 fns=Tx::commit,TxInner::write_data,DBInner::meta bound="failing call 9: flush after the header write" unwind=520
 fault_harness!(tx_commit_fault_09_flush, 9, 0);
-// @ob props=C11 tier=quick cap=1200 mem=16 fns=Tx::commit,TxInner::write_data,DBInner::meta bound="failing call 10: the final sync (header already handed to the OS)" unwind=520
+// @ob props=C11 tier=quick cap=1200 mem=12 fns=Tx::commit,TxInner::write_data,DBInner::meta bound="failing call 10: the final sync (header already handed to the OS)" unwind=520
 fault_harness!(tx_commit_fault_10_sync, 10, 0);
+
+// ---- C16-Ob3 / C02: file growth: when the commit needs more pages than the file has, the file is extended
+//      before anything is written, in whole MIN_ALLOC_SIZE steps, to at least the required size
+fn growth_case(hw: u64) {
+    // like commit_db, but the header says the high-water mark is `hw` pages although the file holds 12:
+    // every allocation beyond the free set extends the file
+    lay_meta(0, 0, C - 1, 3, 0, hw, 2, PS);
+    lay_meta(1, 1, C, 3, 0, hw, 2, PS);
+    lay_freelist(2, &[]);
+    lay_empty_leaf(3);
+    let db: &'static DB = Box::leak(Box::new(DB { inner: Arc::new(mk_dbinner(12, flags(false))) }));
+    let tx = match begin_and_dirty(db) {
+        Some(t) => t,
+        None => return,
+    };
+    let d = jv_env::disk();
+    let r = tx.commit();
+    assert!(r.is_ok());
+    std::mem::forget(r);
+    // two pages were allocated at the high-water mark: the dirty page and the new free-list page
+    let required = (hw + 2) * PS;
+    let current = 12 * PS;
+    // first logged operation: the extension
+    assert!(d.nops >= 1 && d.ops[0].kind == jv_env::fs::OP_ALLOCATE, "the file is extended before anything is written");
+    let newlen = d.ops[0].len;
+    assert!(newlen >= required, "the extension covers every page the commit writes");
+    assert!((newlen - current) % (8 * 1024 * 1024) == 0 && newlen > current, "growth happens in whole 8 MiB steps");
+    assert!(newlen - required < 8 * 1024 * 1024, "and not more steps than needed");
+    let m = db.inner.meta();
+    assert!(m.is_ok());
+    if let Ok(m) = m {
+        assert!(m.tx_id == C + 1 && m.num_pages == hw + 2, "the new header records the new high-water mark");
+    }
+}
+
+// @ob props=C16,C02 tier=quick cap=1200 mem=12 fns=Tx::commit,TxInner::write_data,DBInner::resize bound="12-page file whose header records a high-water mark of 12 pages: growth by less than one 8 MiB step" unwind=260
+#[kani::proof]
+#[kani::unwind(260)]
+fn tx_commit_growth_small() {
+    growth_case(12);
+}
+
+// @ob props=C16,C02 tier=quick cap=1200 mem=12 fns=Tx::commit,TxInner::write_data,DBInner::resize bound="12-page file whose header records a high-water mark of 40000 pages (10 MB at 256-byte pages): growth crossing more than one 8 MiB step" unwind=260
+#[kani::proof]
+#[kani::unwind(260)]
+fn tx_commit_growth_two_steps() {
+    growth_case(40000);
+}
+
+// ---- C16-Ob5 / C05-Ob8: strict mode never rejects a valid commit (and rejects an inconsistent one)
+fn strict_db(num_pages: u64) -> &'static DB {
+    // 6-page file: headers, free-list page 2 = {4, 5}, empty root leaf 3, pages 4 and 5 free
+    lay_meta(0, 0, C - 1, 3, 0, num_pages, 2, PS);
+    lay_meta(1, 1, C, 3, 0, num_pages, 2, PS);
+    lay_freelist(2, &[4, 5]);
+    lay_empty_leaf(3);
+    let db: &'static DB = Box::leak(Box::new(DB { inner: Arc::new(mk_dbinner(8, flags(true))) }));
+    let mut fl = Freelist::new();
+    fj::push_free(&mut fl, 4);
+    fj::push_free(&mut fl, 5);
+    {
+        let mut g = db.inner.freelist.lock().unwrap();
+        *g = fl;
+    }
+    db
+}
+
+// @ob props=C16,C05 tier=quick cap=1800 mem=12 fns=Tx::commit,TxInner::write_data,TxInner::check,Page::freelist,Page::leaf_elements bound="6-page consistent file (free {4,5}), empty transaction, strict mode on: the commit rewrites the free list only" unwind=260
+#[kani::proof]
+#[kani::unwind(260)]
+fn tx_commit_strict_mode_accepts() {
+    let db = strict_db(6);
+    let res = db.tx(true);
+    assert!(res.is_ok());
+    if let Ok(tx) = res {
+        let r = tx.commit();
+        assert!(r.is_ok(), "strict mode accepts a valid commit");
+        std::mem::forget(r);
+        let d = jv_env::disk();
+        assert!(d.nwrites() == 2, "free-list page and header");
+        let m = db.inner.meta();
+        assert!(m.is_ok());
+        if let Ok(m) = m {
+            assert!(m.tx_id == C + 1 && m.freelist_page == 4 && m.num_pages == 6);
+        }
+    }
+}
+
+// @ob props=C05,C16 tier=quick cap=1800 mem=12 fns=Tx::commit,TxInner::write_data,TxInner::check bound="same file but the header claims 7 pages (page 6 is neither reachable nor free), strict mode on: the self check must refuse, before the header is written" unwind=260
+#[kani::proof]
+#[kani::unwind(260)]
+fn tx_commit_strict_mode_rejects_leak() {
+    let db = strict_db(7);
+    let res = db.tx(true);
+    assert!(res.is_ok());
+    if let Ok(tx) = res {
+        let r = tx.commit();
+        assert!(matches!(r, Err(Error::InvalidDB(_))), "the built-in check reports the unaccounted page");
+        std::mem::forget(r);
+        let m = db.inner.meta();
+        assert!(m.is_ok());
+        if let Ok(m) = m {
+            assert!(m.tx_id == C, "and the header of the refused commit was not written");
+        }
+    }
+}
+
+// ---- C02 copy-on-write: a page freed by the committing transaction itself is not reused by that commit
+//      (it is still part of the previous state), and no page in use is written
+// @ob props=C02,C05 tier=quick cap=1500 mem=12 fns=Tx::commit,TxInner::write_data,TxFreelist::free,TxFreelist::allocate,Freelist::allocate,Freelist::free bound="12-page file, free set {4}; the writer dirties one page (gets 4), frees page 9 (in use by the previous state), commits" unwind=260
+#[kani::proof]
+#[kani::unwind(260)]
+fn tx_commit_cow_freed_page_not_reused() {
+    let db = mk_db(&[4], false);
+    {
+        let mut fl = Freelist::new();
+        fj::push_free(&mut fl, 4);
+        let mut g = db.inner.freelist.lock().unwrap();
+        *g = fl;
+    }
+    let d = jv_env::disk();
+    let mut w = (6 * PS / 8) as usize;
+    while w < (12 * PS / 8) as usize {
+        d.words[w] = 0x5a5a_0000_0000_0000 | w as u64;
+        w += 1;
+    }
+    let tx = match begin_and_dirty(db) {
+        Some(t) => t,
+        None => return,
+    };
+    {
+        let inner = tx.inner.borrow();
+        let mut tf = inner.freelist.borrow_mut();
+        tf.free(9, 1); // e.g. the root page of a bucket deleted in this transaction
+    }
+    let r = tx.commit();
+    assert!(r.is_ok());
+    std::mem::forget(r);
+    untouched_pages_ok();
+    assert!(!d.oob);
+    let m = db.inner.meta();
+    assert!(m.is_ok());
+    if let Ok(m) = m {
+        assert!(m.tx_id == C + 1 && m.freelist_page == 12 && m.num_pages == 13,
+                "no free page was left, so the new free-list page extends the file instead of reusing page 9");
+    }
+    let fl = db.inner.freelist.peek();
+    assert!(fj::n_free(fl) == 0, "nothing freed by this transaction became allocatable");
+    let p = fj::pending_of(fl, C + 1);
+    assert!(p.is_some());
+    if let Some(p) = p {
+        assert!(p.len() == 2 && p[0] == 9 && p[1] == 2, "page 9 and the old free-list page are pending under the committing transaction");
+    }
+}
+
+// ---- C07: the root-level bucket listing of a write transaction reflects its own creations
+// @ob props=C07 tier=quick cap=1500 mem=12 fns=Tx::buckets,Tx::create_bucket,Buckets::next,Cursor::next,InnerBucket::get_bucket,InnerBucket::bucket_getter bound="committed root leaf with one bucket (1-byte name, symbolic); the write transaction creates one more bucket (1-byte name, symbolic, different) and lists the root buckets" unwind=5
+#[kani::proof]
+#[kani::unwind(5)]
+fn tx_buckets_lists_own_creation() {
+    let db = mk_db(&[], false);
+    let old: [u8; 1] = kani::any();
+    let new: [u8; 1] = kani::any();
+    kani::assume(old[0] != new[0]);
+    let bv = crate::cursor::jv::bucket_value(5, 0);
+    let d = jv_env::disk();
+    crate::cursor::jv::put_leaf_page_at(d.as_mut_ptr(), 3, 0, &[crate::cursor::jv::Ent { t: 1, k: &old, v: &bv }]);
+    crate::cursor::jv::put_leaf_page_at(d.as_mut_ptr(), 5, 0, &[]);
+    let res = db.tx(true);
+    assert!(res.is_ok());
+    if let Ok(tx) = res {
+        let c = tx.create_bucket(new);
+        assert!(c.is_ok());
+        std::mem::forget(c);
+        let mut it = tx.buckets();
+        let first = it.next();
+        let second = it.next();
+        let third = it.next();
+        let (lo, hi) = if old[0] < new[0] { (old[0], new[0]) } else { (new[0], old[0]) };
+        match &first {
+            Some((n, _)) => assert!(n.name().len() == 1 && n.name()[0] == lo, "committed and newly created buckets are listed together, in order"),
+            None => assert!(false, "the listing misses the buckets"),
+        }
+        match &second {
+            Some((n, _)) => assert!(n.name().len() == 1 && n.name()[0] == hi, "the bucket created in this transaction is listed"),
+            None => assert!(false, "the listing misses the bucket created in this transaction"),
+        }
+        assert!(third.is_none());
+        std::mem::forget(first);
+        std::mem::forget(second);
+        std::mem::forget(it);
+        std::mem::forget(tx);
+    }
+}
